@@ -268,6 +268,15 @@ func handleExceptionSignal(vm *r.VM, blockModule *r.Module, catchBlock []*syntax
 
 // EvalStatement - eval statement
 func evalStatement(vm *r.VM, stmt syntax.Statement) (r.Element, error) {
+	if !vm.EnterEval() {
+		return nil, zerr.EvalDepthExceeded(r.MaxEvalDepth)
+	}
+	elem, err := evalStatementInner(vm, stmt)
+	vm.LeaveEval()
+	return elem, err
+}
+
+func evalStatementInner(vm *r.VM, stmt syntax.Statement) (r.Element, error) {
 	verifTick()
 	// set current line
 	vm.SetCurrentLine(stmt.GetCurrentLine())
@@ -785,6 +794,15 @@ func evalIterateStmt(vm *r.VM, node *syntax.IterateStmt) error {
 
 // // execute expressions
 func evalExpression(vm *r.VM, expr syntax.Expression) (r.Element, error) {
+	if !vm.EnterEval() {
+		return nil, zerr.EvalDepthExceeded(r.MaxEvalDepth)
+	}
+	elem, err := evalExpressionInner(vm, expr)
+	vm.LeaveEval()
+	return elem, err
+}
+
+func evalExpressionInner(vm *r.VM, expr syntax.Expression) (r.Element, error) {
 	switch e := expr.(type) {
 	case *syntax.VarAssignExpr:
 		return evalVarAssignExpr(vm, e)
